@@ -445,6 +445,53 @@ theorem literal_sandwich (d : List Nat) (hn : NulFree d) (hh : d.head? = some 91
   obtain ⟨inner, hd, _, h4, h6⟩ := literal_family d hn hh v4f v6f l h
   rw [hd, literalIsV4_eq]; exact ⟨h4, h6⟩
 
+/-- **at the level of `is_*_email`**: an accepted address whose domain starts with `[` has a domain of exactly the
+form `[` addr `]`, in the upper-bound grammar, and the record says `is_ipv4` iff addr is a dotted quad, `is_ipv6`
+otherwise, never `is_domain` -/
+theorem email_literal (b : Build) (conv : List Nat → Conv) (m : Mode) (email l d : List Nat) (tld : Bool)
+    (hs : splitLast 64 email = some (l, d)) (hh : d.head? = some 91) (hn : NulFree d)
+    (r : Result) (h : isEmail b conv m email tld = .ok r) (hr : r.rc = 0) :
+    IsLiteralUpper d ∧ ∃ inner, d = 91 :: inner ++ [93] ∧ r.isIpv4 = v4 inner ∧ r.isIpv6 = (!v4 inner) ∧ r.isDomain = false := by
+  unfold isEmail at h
+  have he : email.isEmpty = false := by
+    cases email with
+    | nil => simp [splitLast] at hs
+    | cons => rfl
+  have hd : d.isEmpty = false := by
+    cases d with
+    | nil => simp at hh
+    | cons => rfl
+  simp only [he, hs, hd, Bool.false_eq_true, if_false] at h
+  split at h
+  · cases h; exact absurd hr (by decide)
+  · split at h
+    · rename_i hloc
+      cases h
+      simp only at hr
+      simp only [bne_iff_ne, ne_eq] at hloc
+      exact absurd hr hloc
+    · have hne : (d.head? != some 91) = false := by simp [hh]
+      simp only [hne, Bool.false_eq_true, if_false] at h
+      unfold literalPart at h
+      cases hc : checkIp d with
+      | error e => rw [hc] at h; cases h
+      | ok v =>
+        obtain ⟨rc, v4f, v6f, lit'⟩ := v
+        rw [hc] at h
+        simp only at h
+        by_cases hrc : (rc == 0) = true
+        · have : rc = 0 := by simpa using hrc
+          subst this
+          simp only [beq_self_eq_true, if_true, Except.ok.injEq] at h
+          subst h
+          refine ⟨literal_upper d hn hh v4f v6f lit' hc, ?_⟩
+          obtain ⟨inner, hd', _, h4, h6⟩ := literal_family d hn hh v4f v6f lit' hc
+          exact ⟨inner, hd', h4, h6, rfl⟩
+        · simp only [hrc, Bool.false_eq_true, if_false, Except.ok.injEq] at h
+          subst h
+          simp only at hr
+          exact absurd hr (by simpa using hrc)
+
 /-! ### the hypotheses are satisfiable, and the bounds are not vacuous -/
 example : IsLiteralLower [91, 49, 46, 50, 46, 51, 46, 52, 93] :=              -- [1.2.3.4]
   ⟨[49, 46, 50, 46, 51, 46, 52], rfl, Or.inl (by decide)⟩
